@@ -121,8 +121,8 @@ def make_case(rng, tier, mode=None, codec=None, size="small"):
 
 def gen(rng, tier):
     quick = tier == "quick"
-    plan = [("small", 700 if quick else 7000), ("kib", 200 if quick else 2000), ("8k", 60 if quick else 600),
-            ("20k", 40 if quick else 400), ("huge", 12 if quick else 120)]
+    plan = [("small", 700 if quick else 17500), ("kib", 200 if quick else 5000), ("8k", 60 if quick else 1500),
+            ("20k", 40 if quick else 1000), ("huge", 12 if quick else 300)]
     cases = []
     # the expensive classes first and adjacent, so that the checker's round-robin sharding spreads them over the workers
     for size, n in reversed(plan):
